@@ -477,6 +477,18 @@ pub fn crafted(rng: &mut Rng, codecs: &[u8], small_only: bool, bombs: bool) -> V
             a.meta_plain = m;
             add("metadata-bomb", format!("{cn}: metadata expands to 54 MB of whitespace around an empty object"), &a, rng);
         }
+        // valid JSON that is not an object, with multi-byte characters starting at every byte offset 1..=70 (error messages that
+        // quote an excerpt must not cut a character in half)
+        if !small_only || codec == R::C_NONE {
+            for pad in 0..70usize {
+                let mut a = base_archive(codec, dir_with(1, &[1], &[1], &[5], &[1]));
+                a.meta_plain = format!("\"{}{}\"", "a".repeat(pad), "é日😀".repeat(12)).into_bytes();
+                add("non-object-metadata", format!("{cn}: metadata is a JSON string with multi-byte characters from byte {}", pad + 1), &a, rng);
+            }
+            let mut a = base_archive(codec, dir_with(1, &[1], &[1], &[5], &[1]));
+            a.meta_plain = format!("[{}]", vec!["\"日本語\""; 30].join(",")).into_bytes();
+            add("non-object-metadata", format!("{cn}: metadata is a long JSON array of multi-byte strings"), &a, rng);
+        }
         // tiny metadata: every single byte, and every two-byte string that starts a multi-byte UTF-8 sequence, a BOM,
         // or a JSON token
         if (codec == R::C_NONE || codec == R::C_ZSTD) && !small_only {
